@@ -1216,9 +1216,12 @@ fn build(tape: &Tape, open: Open, force_power: bool) -> Scenario {
     src.push_str("END_CONFIGURATION\n");
 
     // ---- history
-    let store_interval_ms = if r.chance(1, 3) {
+    let store_interval_ms = if r.chance(1, 2) {
         labels.insert("store=configured_from_start".into());
-        Some([-1i64, 0, 20, 100][r.pick(4)])
+        // periodic save: none, every cycle, small, large, very large (simulated time)
+        let ms = [-1i64, -1, 0, 20, 100, 1000][spread(&mut r, 6)];
+        labels.insert(format!("store_interval_ms={ms}"));
+        Some(ms)
     } else {
         let _ = r.word();
         None
@@ -1226,7 +1229,7 @@ fn build(tape: &Tape, open: Open, force_power: bool) -> Scenario {
     let mut ops: Vec<Op> = Vec::new();
     let n_ops = 4 + r.pick(14);
     for _ in 0..n_ops {
-        let op = match r.weighted(&[12, 2, 3, 2, 2, 1, 2, 3]) {
+        let op = match r.weighted(&[12, 2, 3, 2, 2, 1, 2, 3, 3]) {
             0 => Op::Cycle {
                 inputs: inputs.iter().map(|s| input_word(&mut r, s.bits)).collect(),
                 dt_ns: DT_CHOICES[r.pick(DT_CHOICES.len())],
@@ -1260,12 +1263,34 @@ fn build(tape: &Tape, open: Open, force_power: bool) -> Scenario {
                     Op::RestartWithRetain { cold }
                 }
             }
+            7 => {
+                if global_retained_instance && open.retain_fb {
+                    // the store cannot hold a retained global instance (open finding)
+                    excluded.push(K_RETAIN_FB.to_string());
+                    Op::Restart { cold: false }
+                } else {
+                    Op::PowerLoss
+                }
+            }
             _ => Op::Restart { cold: false },
         };
         ops.push(op);
     }
-    let is_restart =
-        |o: &Op| matches!(o, Op::Restart { .. } | Op::PowerCycle | Op::RestartWithRetain { .. });
+    // power loss right after a store-synchronising restart: the state the store is left in
+    if !(global_retained_instance && open.retain_fb) && r.chance(1, 3) {
+        if let Some(at) = ops
+            .iter()
+            .position(|o| matches!(o, Op::RestartWithRetain { .. }))
+        {
+            ops.insert(at + 1, Op::PowerLoss);
+        }
+    }
+    let is_restart = |o: &Op| {
+        matches!(
+            o,
+            Op::Restart { .. } | Op::PowerCycle | Op::RestartWithRetain { .. } | Op::PowerLoss
+        )
+    };
     if !ops.iter().any(is_restart) {
         let at = (ops.len() * 2) / 3;
         let kind = r.pick(3);
